@@ -276,7 +276,7 @@ Resolve(r, l, n) ==
   LET h == Hai([r EXCEPT !.lk[l].st = "run", !.lk[l].name = n], 0, l, n, 1)
   IN Emit(h.r, [e |-> "ret", l |-> l, rc |-> h.err, task |-> IF h.set THEN 1 ELSE 0])
 
-CancelOk(r, l) == r.alive /\ l \in Lookups /\ r.lk[l].st = "run" /\ r.lk[l].task # 0
+CancelOk(r, l) == r.alive /\ l \in Lookups /\ r.lk[l].st \in {"run", "cancelled"} /\ r.lk[l].task # 0   \* idempotent
 Cancel(r, l) == [r EXCEPT !.task[r.lk[l].task].live = FALSE, !.lk[l].cancelled = TRUE, !.lk[l].st = "cancelled"]
 
 RECURSIVE FreeAll(_, _)
